@@ -655,6 +655,22 @@ func (b *brokerCore) handle(ws []string) string {
 			c.waitUntil(func() bool { return c.eof }, brokerWait)
 		}
 		return b.collect(id, false, nil)
+	case "rawclose":
+		// whole packets written in one go and the socket closed straight behind them, with no barrier
+		// in between: the broker's receiver sees the end of the stream while its processor is still
+		// working through the packets - every one of them must take effect all the same (a
+		// DISCONNECT at the end makes the end a graceful one)
+		id := atoi(ws[1])
+		c, ok := b.clients[id]
+		if !ok || c.dead || !c.accepted || c.mid() {
+			return "-"
+		}
+		b.rawConn = id
+		c.pend = nil
+		c.write(unhex(ws[2]))
+		c.conn.Close()
+		c.waitUntil(func() bool { return c.eof }, brokerWait)
+		return b.collect(id, false, nil)
 	case "close":
 		id := atoi(ws[1])
 		c, ok := b.clients[id]
